@@ -46,7 +46,7 @@ def shards(tier):
 def required_counters(tier):
     return {'judged:exact-pixel': 5000, 'judged:exact-range': 5000, 'judged:full-pixel': 500, 'judged:empty-pixel': 500, 'judged:mask-sum': 50,
             'judged:convergence': 200, 'lane:circle-mask': 10, 'lane:ellipse-mask': 10, 'lane:circle-window': 10, 'lane:ellipse-window': 10,
-            'lane:nice-circle': 5, 'lane:nice-ellipse': 5, 'big-circle-rows': 2000, 'big-ellipse-pixels': 100000, 'history-steps': 15, 'exact-with-subpixels-1': 20, 'float32-scalar-centres': 20, 'masks-of-excluded-regions': 20, 'result-edited-then-requested-again': 20}
+            'lane:nice-circle': 5, 'lane:nice-ellipse': 5, 'big-circle-rows': 2000, 'big-ellipse-pixels': 100000, 'history-steps': 15, 'masks-used-before-being-judged': 15, 'exact-with-subpixels-1': 20, 'float32-scalar-centres': 20, 'masks-of-excluded-regions': 20, 'result-edited-then-requested-again': 20}
 
 
 # ---------------------------------------------------------------------------
@@ -330,6 +330,24 @@ def _deg(theta):
 
 def exact_mask(reg, rs, obs):
     """mode='exact' in the spellings the signature allows: `subpixels` is documented as ignored outside 'subpixels' mode."""
+    m = _exact_mask(reg, rs, obs)
+    if rs % 5 == 2 and np.asarray(m.data).size:
+        # a mask that has been USED before it is looked at: applied to an image with a bad-pixel mask, multiplied, cut out.  It still
+        # holds the overlap fractions afterwards.
+        bb = m.bbox
+        nrng = np.random.default_rng(rs)
+        shape = (max(bb.iymax, 1) + 2, max(bb.ixmax, 1) + 2)
+        if shape[0] * shape[1] <= 4_000_000:
+            img = nrng.normal(0, 1, shape)
+            m.get_values(img, mask=nrng.random(shape) < 0.4)
+            m.multiply(img, fill_value=np.nan)
+            m.cutout(img, fill_value=-1.0)
+            m.to_image(shape)
+            obs.count('masks-used-before-being-judged')
+    return m
+
+
+def _exact_mask(reg, rs, obs):
     k = rs % 6
     if k == 0:
         obs.count('exact-with-subpixels-1')
@@ -569,7 +587,9 @@ def run_case(case, obs):
     prng = random.Random(case['rs'])
     cls = case['cls']
     sp = gen.pixel_region_spec(prng, cls=cls, size=case['size'], center=(case['cx'], case['cy']), angle=case['angle'], include='absent',
-                               max_aspect=4.0, poly_kind='starsafe' if cls == 'PolygonPixelRegion' else None)
+                               max_aspect=4.0,
+                               # simple polygons only (clipped signed area = even-odd area): star-shaped ones, and sheared boxes on dyadic coordinates
+                               poly_kind=(('starsafe' if case['rs'] % 4 else 'parallelogram') if cls == 'PolygonPixelRegion' else None))
     sp['p'].pop('origin', None) if False else None
     reg = S.build(sp)
     bb = reg.bounding_box
